@@ -27,6 +27,7 @@ class TapMixin:
         self._sentinel_next = False
         self._pending_sentinel = None
         self.tap_enabled = True
+        self.probe_enabled = True   # False: observe through schedule()/step() only, leave every callbacks list untouched
         self.quiet = False      # set around the creation of harness filler events that must not be recorded
 
     def tick(self):
@@ -118,7 +119,7 @@ class TapMixin:
             self.log.append(('T', self.tick(), lb, kind, now, delay, int(priority),
                              self.step_no if self.in_step else None, now + delay))
             cbs = event.callbacks
-            if isinstance(cbs, list) and self._probe not in cbs:
+            if self.probe_enabled and isinstance(cbs, list) and self._probe not in cbs:
                 cbs.insert(0, self._probe)
         return super().schedule(event, priority, delay)
 
@@ -145,6 +146,8 @@ class TapMixin:
             raise
         finally:
             self.in_step = False
+            if not self.probe_enabled:
+                self.log.append(('N', self.tick(), self.now, self.step_no))
 
     def run(self, until=None):
         if until is not None and not isinstance(until, Event):
